@@ -209,6 +209,10 @@ class MembershipMonitor(Ext):
         sim = self.sim
         if sim.phase != 'done' or sim.inconclusive:
             return
+        if (self.mon.quiet or {}).get('result') not in (None, 'converged'):
+            # "at rest" means converged: a run whose quiet phase ended with a member left behind (reported by the convergence
+            # oracle, where that counts) has members that have not seen the whole committed log
+            return
         # (4) agreement: every live member reports the set defined by the committed log
         for p in sim.live():
             if not p.voter or p.key not in self.committed_members:
